@@ -198,7 +198,9 @@ var protectedPtrs = []string{"/publicKey", "/publicKey/0", "/publicKey/1", "/pub
 	// look-alikes that are NOT the protected members
 	"/a/publicKey", "/a/service/0", "/publickey", "/Service", "/~0publicKey", "/a~1publicKey", "/publicKe", "/servic", "/ service",
 	// unusual spellings
-	"", "/", "//publicKey", "/publicKey/", "publicKey", "x/publicKey", "x/service/0", "/./publicKey", "/publicKey~0", "/~1publicKey", "~1publicKey"}
+	"", "/", "//publicKey", "/publicKey/", "publicKey", "x/publicKey", "x/service/0", "/./publicKey", "/publicKey~0", "/~1publicKey", "~1publicKey",
+	// URI-fragment spelling of a pointer (RFC 6901 §6): not a JSON-string pointer, the library ignores what precedes the first slash
+	"#/publicKey/0/type", "#/publicKey/0", "#/service/0/id", "#/x", "#", "#/"}
 
 var freePtrs = []string{"/pub", "/p", "/serv", "/", "/publicKe", "/s", "/x", "/a", "/a/b", "/a/publicKey", "/other", "/other/0", "/other/-", "/alsoKnownAs", "/alsoKnownAs/0", "/tmp", "/tmp/0", "/tmp/id"}
 
